@@ -93,12 +93,33 @@ class Level:
         self.R, self.CUR, self.bottom = R, CUR, bottom
 
 
+class IdentitySpec:
+    """What a pending source node contributes to the list of its level: for
+    copying traversals, a node of the same structure."""
+
+    def item(self, s):  # Struct -> Seq Struct
+        return z3.Unit(s)
+
+    def seq(self, q):  # Seq Struct -> Seq Struct
+        return q
+
+    def target(self, s):  # children list a marker's level has to reach
+        return Struct.kids(s)
+
+    def unfold(self, p, s):
+        pass
+
+    def marker(self, p, s):
+        """facts about a node whose marker is on the stack"""
+
+
 class Frames:
     """State shared by the two stacks of one run (kept in path.ghost)."""
 
-    def __init__(self, eng, F):
+    def __init__(self, eng, F, spec=None):
         self.eng = eng
-        self.F = F  # the whole input (Seq Struct)
+        self.spec = spec or IdentitySpec()
+        self.F = self.spec.seq(F)  # what the bottom level has to reach
         self.pending_list = None  # (A, name): list to materialise next
 
     # -- havoc ------------------------------------------------------------------
@@ -107,8 +128,9 @@ class Frames:
         CUR = z3.Const(p.fresh_name('CUR' + tag), SeqS)
         bottom = p.fresh_bool('bottom' + tag)
         A = z3.Const(p.fresh_name('A' + tag), SeqS)
-        p.assume(z3.Concat(A, R) == CUR)
+        p.assume(z3.Concat(A, self.spec.seq(R)) == CUR)
         p.assume(z3.Implies(bottom, CUR == self.F))
+        p.assume(self.spec.seq(z3.Empty(SeqS)) == z3.Empty(SeqS))
         lvl = Level(R, CUR, bottom)
         visit = wl.AbsList(self.eng, [wl.Opaque(
             lvl, self.split_visit, self.visit_nonempty)])
@@ -131,19 +153,26 @@ class Frames:
             n = nm.lazy_node(e, p, p.fresh_name('pending'))
             R2 = z3.Const(p.fresh_name('R'), SeqS)
             p.assume(lvl.R == z3.Concat(z3.Unit(nm.S(n)), R2))
+            p.assume(self.spec.seq(lvl.R) == z3.Concat(
+                self.spec.item(nm.S(n)), self.spec.seq(R2)))
+            self.spec.unfold(p, nm.S(n))
             return (n, False), Level(R2, lvl.CUR, lvl.bottom)
         # this level is finished: the marker of the enclosing node is next
         if not e.truth(mk_bool(z3.Not(lvl.bottom))):
             raise PyRaise(IndexError('pop from empty list'))
         x = nm.lazy_node(e, p, p.fresh_name('encl'))
         p.assume(Struct.is_tup(nm.S(x)))
-        p.assume(Struct.kids(nm.S(x)) == lvl.CUR)
+        p.assume(self.spec.target(nm.S(x)) == lvl.CUR)
+        p.assume(self.spec.seq(z3.Empty(SeqS)) == z3.Empty(SeqS))
+        self.spec.marker(p, nm.S(x))
+        self.spec.unfold(p, nm.S(x))
         # the enclosing level: its list A', rest R', target CUR'
         A2 = z3.Const(p.fresh_name('A'), SeqS)
         R2 = z3.Const(p.fresh_name('R'), SeqS)
         CUR2 = z3.Const(p.fresh_name('CUR'), SeqS)
         bottom2 = p.fresh_bool('bottom')
-        p.assume(z3.Concat(A2, z3.Unit(nm.S(x)), R2) == CUR2)
+        p.assume(z3.Concat(A2, self.spec.item(nm.S(x)),
+                           self.spec.seq(R2)) == CUR2)
         p.assume(z3.Implies(bottom2, CUR2 == self.F))
         self.pending_list = (A2, bottom2)
         return (x, True), Level(R2, CUR2, bottom2)
@@ -199,7 +228,7 @@ class Frames:
                 if not (isinstance(w, tuple) and len(w) == 2 and w[0] is g
                         and w[1] is False and part.rev):
                     return None
-                groups[-1].append(part.seq)
+                groups[-1].append(self.spec.seq(part.seq))
             else:
                 it = part[1]
                 if not (isinstance(it, tuple) and len(it) == 2 and isinstance(
@@ -209,20 +238,20 @@ class Frames:
                     markers.append(it[0])
                     groups.append([])
                 else:
-                    groups[-1].append(z3.Unit(nm.S(it[0])))
+                    groups[-1].append(self.spec.item(nm.S(it[0])))
         if len(lists) != len(groups):
             return None
         eqs = []
         for i, (lst, grp) in enumerate(zip(lists, groups)):
             lhs = [list_den(lst, S)]
             if i > 0:
-                lhs.append(z3.Unit(nm.S(markers[i - 1])))
+                lhs.append(self.spec.item(nm.S(markers[i - 1])))
             lhs.extend(grp)
             if i < len(markers):
                 eqs.append(Struct.is_tup(nm.S(markers[i])))
-                eqs.append(cat(lhs) == Struct.kids(nm.S(markers[i])))
+                eqs.append(cat(lhs) == self.spec.target(nm.S(markers[i])))
             elif lvl is not None:
-                eqs.append(cat(lhs + [lvl.R]) == lvl.CUR)
+                eqs.append(cat(lhs + [self.spec.seq(lvl.R)]) == lvl.CUR)
                 eqs.append(z3.Implies(lvl.bottom, lvl.CUR == self.F))
                 eqs.append(lvl.bottom == (nbelow == 0))
                 eqs.append(nbelow >= 0)
